@@ -87,6 +87,9 @@ impl<'tcx> Cx<'tcx> {
       let tys: Vec<J> = args.iter().filter_map(|a| a.as_type()).map(|t| J::s(ty_head(tcx, t))).collect();
       if !tys.is_empty() {
         o.push(("targs", J::Arr(tys)));
+        // full (not just head) type arguments: `collect::<Result<OrderedSet<S>, E>>()` needs the inner target
+        let full: Vec<J> = args.iter().filter_map(|a| a.as_type()).map(|t| J::s(ty_str(tcx, t))).collect();
+        o.push(("targs_full", J::Arr(full)));
       }
     }
     // static dispatch when the callee is a trait method on a concrete type
